@@ -54,6 +54,7 @@ func init() {
 			ruleRunRestart(c)
 			ruleStartOnce(c)
 			c.Clause("C08-D2")
+			ruleLockField(c, "server", c.M.SCh, c.M.SErr, c.M.SInq)
 			ruleRunGuardServer(c)
 			ruleReaderExitStops(c, "server")
 			c.Clause("C08-D3")
